@@ -210,6 +210,89 @@ theorem P_variants_physically_agree (X X' : GFn) (Y Y' : RFn) (hb : kw.bcoh ≠ 
   · rw [e6, e6', h3, fOut_g_unc kw junk X hb hrho r _ _ hgl.symm hdgl.symm, fOut_g_unc kw junk X' hb hrho r _ _ hgl.symm hdgl.symm,
       gslope_list kw .g X X' hb hrho r _ hrpos]
 
+/-! ## no uncertainty supplied = zeros supplied -/
+
+theorem crop_none_eq_zeros (x y : Vec ℝ) (lo hi : ℝ) (h : x.length = y.length) :
+    Transformer.apply_cropping (Kw.none : Kw ℝ) junk x y lo hi none
+      = Transformer.apply_cropping (Kw.none : Kw ℝ) junk x y lo hi (some (Vec.zerosLike y)) := by
+  rw [apply_cropping_spec (Kw.none : Kw ℝ) junk x y lo hi none h (by simp),
+    apply_cropping_spec (Kw.none : Kw ℝ) junk x y lo hi (some (Vec.zerosLike y)) h (fun d hd => by cases hd; simp [Vec.zerosLike, h])]
+  rfl
+
+/-- the core treats an absent uncertainty vector (either of the two) exactly like a vector of zeros, on all nine outputs -/
+theorem core_none_eq_zeros (r gr q fq : Vec ℝ) (cutoff : ℝ) (hr : r.length = gr.length) (hq : q.length = fq.length) (dgr dfq : Option (Vec ℝ)) :
+    FourierFilter.g_using_F kw junk r gr q fq cutoff none dfq
+      = FourierFilter.g_using_F kw junk r gr q fq cutoff (some (Vec.zerosLike gr)) dfq ∧
+    FourierFilter.g_using_F kw junk r gr q fq cutoff dgr none
+      = FourierFilter.g_using_F kw junk r gr q fq cutoff dgr (some (Vec.zerosLike fq)) := by
+  constructor
+  · simp only [FourierFilter.g_using_F]
+    rw [crop_none_eq_zeros junk r gr _ cutoff hr]
+  · simp only [FourierFilter.g_using_F]
+    rw [crop_none_eq_zeros junk q fq _ _ hq]
+
+theorem gconv_none_eq_zeros (X Y : GFn) (hb : kw.bcoh ≠ 0) (hrho : 0 < kw.rho) (r y : Vec ℝ) (h : r.length = y.length) :
+    GenTable.gconv X Y kw junk r y none = GenTable.gconv X Y kw junk r y (some (Vec.zerosLike y)) := by
+  apply Prod.ext
+  · rw [gconv_val kw junk X Y hb hrho r y none h, gconv_val kw junk X Y hb hrho r y (some (Vec.zerosLike y)) h]
+  · rw [gconv_unc kw junk X Y hb hrho r y none h (by simp),
+      gconv_unc kw junk X Y hb hrho r y (some (Vec.zerosLike y)) h (fun d hd => by cases hd; simp [Vec.zerosLike, h])]
+    rfl
+
+theorem rconv_none_eq_zeros (X Y : RFn) (hb : kw.bcoh ≠ 0) (q y : Vec ℝ) (h : q.length = y.length) :
+    GenTable.rconv X Y kw junk q y none = GenTable.rconv X Y kw junk q y (some (Vec.zerosLike y)) := by
+  apply Prod.ext
+  · rw [rconv_val kw junk X Y hb q y none h, rconv_val kw junk X Y hb q y (some (Vec.zerosLike y)) h]
+  · rw [rconv_unc kw junk X Y hb q y none h (by simp),
+      rconv_unc kw junk X Y hb q y (some (Vec.zerosLike y)) h (fun d hd => by cases hd; simp [Vec.zerosLike, h])]
+    rfl
+
+/-- **P (all 12 variants)**: a variant called without uncertainties returns what it returns for zero uncertainties, on all nine outputs — so
+`P_variants_physically_agree` also covers callers that supply none -/
+theorem P_variant_none_eq_zeros (X : GFn) (Y : RFn) (hb : kw.bcoh ≠ 0) (hrho : 0 < kw.rho) (r gr q fq : Vec ℝ) (cutoff : ℝ)
+    (hr : r.length = gr.length) (hq : q.length = fq.length) :
+    GenTable.filt X Y kw junk r gr q fq cutoff none none
+      = GenTable.filt X Y kw junk r gr q fq cutoff (some (Vec.zerosLike gr)) (some (Vec.zerosLike fq)) := by
+  rw [P_variant_factor kw junk X Y r gr q fq cutoff none none, P_variant_factor kw junk X Y r gr q fq cutoff (some _) (some _)]
+  have hbl : q.length = (GenTable.fIn_F Y kw junk q fq (some (Vec.zerosLike fq))).1.length := by
+    rw [C08.fIn_F_val kw junk Y hb q fq _ hq]; simp [hq]
+  have hal : r.length = (GenTable.fIn_g X kw junk r gr (some (Vec.zerosLike gr))).1.length := by
+    cases X
+    case g => exact hr
+    all_goals
+      simp only [GenTable.fIn_g]
+      rw [gconv_val kw junk _ .g hb hrho r gr _ hr]; simp [hr]
+  -- the converted inputs: equal outright for X ≠ g, Y ≠ Q[S−1]; for the identity cases the core lemma closes the gap
+  have hg : ∀ e : Option (Vec ℝ), ∀ b1 : Vec ℝ, q.length = b1.length →
+      FourierFilter.g_using_F kw junk r (GenTable.fIn_g X kw junk r gr none).1 q b1 cutoff (GenTable.fIn_g X kw junk r gr none).2 e
+        = FourierFilter.g_using_F kw junk r (GenTable.fIn_g X kw junk r gr (some (Vec.zerosLike gr))).1 q b1 cutoff
+            (GenTable.fIn_g X kw junk r gr (some (Vec.zerosLike gr))).2 e := by
+    intro e b1 hb1
+    cases X
+    case g => exact (core_none_eq_zeros kw junk r gr q b1 cutoff hr hb1 none e).1
+    all_goals
+      simp only [GenTable.fIn_g]
+      rw [gconv_none_eq_zeros kw junk _ .g hb hrho r gr hr]
+  have hf : ∀ (a1 : Vec ℝ) (d : Option (Vec ℝ)), r.length = a1.length →
+      FourierFilter.g_using_F kw junk r a1 q (GenTable.fIn_F Y kw junk q fq none).1 cutoff d (GenTable.fIn_F Y kw junk q fq none).2
+        = FourierFilter.g_using_F kw junk r a1 q (GenTable.fIn_F Y kw junk q fq (some (Vec.zerosLike fq))).1 cutoff d
+            (GenTable.fIn_F Y kw junk q fq (some (Vec.zerosLike fq))).2 := by
+    intro a1 d ha1
+    cases Y
+    case F => exact (core_none_eq_zeros kw junk r a1 q fq cutoff ha1 hq d none).2
+    all_goals
+      simp only [GenTable.fIn_F]
+      rw [rconv_none_eq_zeros kw junk _ .F hb q fq hq]
+  have hval : (GenTable.fIn_F Y kw junk q fq none).1 = (GenTable.fIn_F Y kw junk q fq (some (Vec.zerosLike fq))).1 := by
+    rw [C08.fIn_F_val kw junk Y hb q fq _ hq, C08.fIn_F_val kw junk Y hb q fq _ hq]
+  have key : FourierFilter.g_using_F kw junk r (GenTable.fIn_g X kw junk r gr none).1 q (GenTable.fIn_F Y kw junk q fq none).1 cutoff
+        (GenTable.fIn_g X kw junk r gr none).2 (GenTable.fIn_F Y kw junk q fq none).2
+      = FourierFilter.g_using_F kw junk r (GenTable.fIn_g X kw junk r gr (some (Vec.zerosLike gr))).1 q
+          (GenTable.fIn_F Y kw junk q fq (some (Vec.zerosLike fq))).1 cutoff
+          (GenTable.fIn_g X kw junk r gr (some (Vec.zerosLike gr))).2 (GenTable.fIn_F Y kw junk q fq (some (Vec.zerosLike fq))).2 := by
+    rw [hg _ _ (by rw [hval]; exact hbl), hf _ _ hal]
+  simp only [key]
+
 /-- the hypotheses are satisfiable (a two-point example relating variant (G, S) to variant (G_K, DCS)): the theorem instantiates -/
 example (junk : Junk ℝ) :
     let kw : Kw ℝ := { rho := 1, bcoh := 2, btot := 3 }
